@@ -108,6 +108,9 @@ func genHost(r *Rng) string {
 func (e *env) params(iss, win, eku, nam int) certParams {
 	r := e.c.Rng
 	E := genNodeID(r)
+	if nam == namCaseFold {
+		E = genFoldID(r)
+	}
 	D := genHost(r)
 	return certParams{Issuer: iss, Window: win, EKU: eku, Names: nam,
 		E: E, O: "other-" + genASCII(r, 4), O2: E + "-2", D: D, DOther: "z" + genHost(r) + ".other"}
@@ -223,7 +226,17 @@ func (cc *certCase) oracle(v vrun) (mustAccept, mustRefuse bool, failed []string
 		switch v.HType {
 		case htRecv:
 			if !contains(cc.IDs, v.Expected) {
-				fail("node-id-not-named")
+				folds := false
+				for _, id := range cc.IDs {
+					if strings.EqualFold(id, v.Expected) {
+						folds = true
+					}
+				}
+				if folds { // a node ID is an exact string: another spelling is another node
+					fail("node-id-differs-only-by-case")
+				} else {
+					fail("node-id-not-named")
+				}
 			} else if !cc.NamesOK {
 				undetermined = true // the ID is there but the extension is malformed elsewhere
 			}
@@ -259,8 +272,12 @@ func (e *env) verifyTier(cases []*certCase, pinsPerMode int) {
 				}
 			}
 		}
+		// the expected ID in a spelling that differs from E only by letter case / case folding
+		fv := foldVariants(cc.P.E)
+		rot++
+		add(1+rot%2, htRecv, fv[rot%len(fv)], pinNone)
 		// a free run: any verify type, any host name type, some other expected name
-		exps := []string{cc.P.E, cc.P.O, "", cc.P.E + "x", cc.P.D, cc.P.DOther, cc.P.O2}
+		exps := []string{cc.P.E, cc.P.O, "", cc.P.E + "x", cc.P.D, cc.P.DOther, cc.P.O2, fv[0]}
 		add([]int{0, 1, 2, 3, 1, 2}[r.Intn(6)], []int{0, 1, 2, 3, 1, 2, 2}[r.Intn(7)], exps[r.Intn(len(exps))], r.Intn(nPins))
 		var terms []string
 		for _, v := range runs {
@@ -394,6 +411,13 @@ func (e *env) clientTier(cases []*certCase, runsPer int) {
 				pk = r.Intn(nPins)
 			}
 			skip := r.Chance(6)
+			if cc.P.Names == namCaseFold && k == 0 {
+				exp, skip = cc.P.E, false // receptor-name mode against spellings that differ only by case
+			}
+			if cc.P.Names == namExpected && k == 2 {
+				fv := foldVariants(cc.P.E)
+				exp, skip, pk = fv[r.Intn(len(fv))], false, pinNone // the other direction: the expected ID has the other spelling
+			}
 			v := vrun{vtServer, ht, exp, pk, cc.pins(pk, r)}
 			e.clientProfile("cli", skip, v.Pins, nil)
 			tc, err := e.node.GetClientTLSConfig("cli", exp, netceptor.ExpectedHostnameType(ht))
@@ -520,7 +544,7 @@ func (e *env) serverTier(cases []*certCase, runsPer int) {
 
 func runC09(c *Ctx) {
 	im := NewImpl("C09", c.Seed, c.Tier)
-	im.Rule = "certificates from crypto/x509 over issuer{RootCAs CA, ClientCAs CA, unrelated CA, self-signed, via intermediate presented/missing} x window{valid, expired, not yet valid} x EKU{server, client, both, neither, absent} x names{expected, other, several, none, DNS-only, DNS-other, several-without, near-miss, bad-UTF8} (node IDs and host names random per certificate), plus malformed presentations (no certificate, garbage, truncated, garbage second element); each shown to ReceptorVerifyFunc for both verify types x {receptor, DNS, DNS-empty} x rotating pin lists {none, sha256, sha512, sha224, sha384, miss, wrong length, match-then-wrong, wrong-then-match, miss-then-match, empty pin, match-then-miss} plus a free run (invalid types, other expected names); a sample goes through crypto/tls handshakes (client side via GetClientTLSConfig, server side via PrepareTLSServerConfig) and through DialContext/ListenAndAdvertise on a real mesh; non-trivial = a certificate was presented and parses; distinct by certificate parameters + run"
+	im.Rule = "certificates from crypto/x509 over issuer{RootCAs CA, ClientCAs CA, unrelated CA, self-signed, via intermediate presented/missing} x window{valid, expired, not yet valid} x EKU{server, client, both, neither, absent} x names{expected, other, several, none, DNS-only, DNS-other, several-without, near-miss, bad-UTF8, case-fold = every spelling differing from the expected ID only by ASCII case or Unicode simple case folding k/U+212A s/U+017F, both directions} (node IDs and host names random per certificate), plus malformed presentations (no certificate, garbage, truncated, garbage second element); each shown to ReceptorVerifyFunc for both verify types x {receptor, DNS, DNS-empty} x rotating pin lists {none, sha256, sha512, sha224, sha384, miss, wrong length, match-then-wrong, wrong-then-match, miss-then-match, empty pin, match-then-miss} plus a free run (invalid types, other expected names); a sample goes through crypto/tls handshakes (client side via GetClientTLSConfig, server side via PrepareTLSServerConfig) and through DialContext/ListenAndAdvertise on a real mesh; non-trivial = a certificate was presented and parses; distinct by certificate parameters + run"
 	cf := &CaseFile{Dir: c.Out, Prop: "C09", Imports: []string{"Model.Tls"}, CaseType: "tls_case", CheckFn: "tls_check", PerShard: 60}
 	QuietLogs()
 	lg := logger.NewReceptorLogger("")
@@ -579,7 +603,7 @@ func runC09(c *Ctx) {
 	var sample []*certCase
 	for i, cc := range cases {
 		good := cc.TimeOK && cc.Kind == "product"
-		if c.Thorough() || cc.Kind == "no-cert" || (good && i%3 == 0) || i%11 == 0 {
+		if c.Thorough() || cc.Kind == "no-cert" || (good && i%3 == 0) || i%11 == 0 || (good && cc.P.Names == namCaseFold && cc.P.Issuer <= issClient) {
 			sample = append(sample, cc)
 		}
 	}
